@@ -24,7 +24,7 @@ type c03 struct{ base }
 
 func init() {
 	core.Register(c03{base{id: "C03", level: "exploration", quickB: 16, thoroughB: 32,
-		rule:        "four monitors (the fourth, framing probes: messages of every type with arbitrary non-fatal bodies - oversized with lengths around multiples of L, unknown types, Sync/Flush/Close/Query with surplus, stray COPY messages, failing extended messages, valid Parse/Bind/Describe/Execute/Close bodies cut short at any offset inside a correct frame - interleaved with numbered probes Sync + Query; every probe must reach the parser exactly once and in order). (1) segmentation metamorphism: generated client byte streams (optional SSLRequest/N, startup, optional password, simple/extended/COPY traffic, surplus-carrying and truncated messages, optionally cut short at a random offset) are delivered under 6 (quick) / 12 (thorough) segmentations - all at once, one byte per read, cuts inside every message header, PRNG cut sets - and the normalised transcript + callback trace must be identical. (2) surplus isolation: Query/Parse/Bind/Describe/Execute/Close/Sync/Flush/CopyDone messages get surplus bytes appended inside their declared length (sentinel text, bytes that parse as a binary COPY row or as another protocol message); the transcript and every callback argument must equal the run without surplus and never contain the sentinel. (3) accessor cursor: buffer.Reader positioned on a generated body followed by a sentinel 'next message'; random sequences of GetString/GetBytes(n>=0)/GetUint16/GetUint32/GetPrepareType are compared with an independent cursor over the body (values, errors, no read beyond the message, no panic; checkptr build, child process). Non-trivial = stream with >= 3 messages and a cut inside a header, surplus case, or accessor sequence hitting the end of the body; distinct = stream shape / surplus placement / accessor sequence shape.",
+		rule:        "four monitors (the fourth, framing probes: messages of every type with arbitrary non-fatal bodies - oversized with lengths around multiples of L, unknown types, Sync/Flush/Close/Query with surplus, stray COPY messages, failing extended messages, valid Parse/Bind/Describe/Execute/Close bodies cut short at any offset inside a correct frame - interleaved with numbered probes Sync + Query; every probe must reach the parser exactly once and in order). (1) segmentation metamorphism: generated client byte streams (optional SSLRequest/N, startup, optional password, simple/extended/COPY traffic, surplus-carrying and truncated messages, optionally cut short at a random offset) are delivered under 6 (quick) / 12 (thorough) segmentations - all at once, one byte per read, cuts inside every message header, PRNG cut sets, PRNG cut sets with a client pause at every cut (virtual time: a pending read deadline fires) - and the normalised transcript + callback trace must be identical. (2) surplus isolation: Query/Parse/Bind/Describe/Execute/Close/Sync/Flush/CopyDone messages get surplus bytes appended inside their declared length (sentinel text, bytes that parse as a binary COPY row or as another protocol message); the transcript and every callback argument must equal the run without surplus and never contain the sentinel. (3) accessor cursor: buffer.Reader positioned on a generated body followed by a sentinel 'next message'; random sequences of GetString/GetBytes(n>=0)/GetUint16/GetUint32/GetPrepareType are compared with an independent cursor over the body (values, errors, no read beyond the message, no panic; checkptr build, child process). Non-trivial = stream with >= 3 messages and a cut inside a header, surplus case, or accessor sequence hitting the end of the body; distinct = stream shape / surplus placement / accessor sequence shape.",
 		need:        []string{"short_bodies_framed", "streams", "segmentations_compared", "cuts_inside_headers", "surplus_cases", "accessor_sequences", "accessor_calls_compared", "accessor_short_data_errors", "truncated_streams", "framing_probes_seen", "granule_positions"},
 		assumptions: append([]string{"ParameterStatus runs are compared as multisets (the library iterates a Go map); after an accessor returned an error the rest of that sequence is not judged"}, commonAssumptions...)}})
 }
@@ -85,11 +85,18 @@ func c03trace(evs []trEvent) string {
 
 // runStream delivers the stream with the given cut set and returns normalised output and trace.
 func c03run(env *hs.Env, progs map[string]*hs.Prog, stream []byte, cuts []int, each bool) (string, string, bool) {
+	return c03runP(env, progs, stream, cuts, each, false)
+}
+
+// c03runP: with paused set the client pauses at every cut for longer than any read deadline.
+func c03runP(env *hs.Env, progs map[string]*hs.Prog, stream []byte, cuts []int, each, paused bool) (string, string, bool) {
 	sess := &hs.Sess{Progs: progs}
 	conn := env.Dial(sess)
 	switch {
 	case each:
 		conn.SendEach(stream)
+	case paused:
+		conn.SendCutPaused(stream, cuts)
 	default:
 		conn.SendCut(stream, cuts)
 	}
@@ -164,8 +171,8 @@ func (ch c03) granule(c *core.Ctx, env *hs.Env, filler int, k int) {
 	}
 	cs := map[string]any{"filler_bytes": filler}
 	tails := [][]byte{
-		pg.Parse("s", "with unread oids", []uint32{23, 25}),                 // 8 unread bytes
-		pg.Raw('S', []byte("surplus-in-sync")),                              // unread surplus
+		pg.Parse("s", "with unread oids", []uint32{23, 25}),                  // 8 unread bytes
+		pg.Raw('S', []byte("surplus-in-sync")),                               // unread surplus
 		pg.Raw('E', append([]byte("nosuch\x00"), 0, 0, 0, 0, 1, 2, 3, 4, 5)), // surplus behind the row limit
 	}
 	in := pg.Query(strings.Repeat("f", filler))
@@ -395,7 +402,12 @@ func (ch c03) segmentation(c *core.Ctx, envPlain, envAuth *hs.Env, rng *core.Rng
 			sort.Ints(cuts)
 			what = "random cuts"
 		}
-		out, trace, ok := c03run(env, s.Progs, stream, cuts, each)
+		paused := k == segs-1
+		if paused {
+			what += ", the client pausing at every cut for longer than any read deadline"
+			c.Count("paused_segmentations", 1)
+		}
+		out, trace, ok := c03runP(env, s.Progs, stream, cuts, each, paused)
 		c.Count("segmentations_compared", 1)
 		if !ok {
 			c.Violate("wedge", "connection did not end after EOF ("+what+")", shape, cs)
